@@ -8501,6 +8501,14 @@ func (l *Lowerer) lowerBitcast(bc *parser.BitcastExpr, target *[]ir.Statement) (
 		return 0, fmt.Errorf("bitcast target type: %w", err)
 	}
 
+	// bitcast reinterprets a concrete value: an abstract operand is first
+	// converted to its default concrete type (u32 when it does not fit i32).
+	if isAbstract, v := l.isAbstractIntLiteral(exprHandle); isAbstract && v > math.MaxInt32 {
+		l.concretizeAbstractToUint(exprHandle)
+	} else {
+		l.concretizeAbstractToDefault(exprHandle)
+	}
+
 	return l.addExpression(ir.Expression{
 		Kind: ir.ExprAs{
 			Expr:    exprHandle,
